@@ -2232,9 +2232,9 @@ end CaddyModel.C15
 /-! ## file_server's sidecar loop -/
 namespace CaddyModel.C15
 
-theorem sidecarLoop_spec (configured : Bytes → Bool) (state : Bytes → SideState) (etagFails : Bool) :
+theorem sidecarLoop_spec (drop : Bool) (configured : Bytes → Bool) (state : Bytes → SideState) (etagFails : Bool) :
     ∀ (accepted : List Bytes) (ce0 ce : Option Bytes) (opened : Option Served),
-      sidecarLoop false configured state etagFails accepted ce0 = .inl (ce, opened) →
+      sidecarLoop false drop configured state etagFails accepted ce0 = .inl (ce, opened) →
       (opened = none ∧ ce = ce0) ∨
         ∃ c, opened = some (.sidecar c) ∧ ce = some c ∧ c ∈ accepted ∧ configured c = true ∧ state c = .ok
   | [], ce0, ce, opened, h => by
@@ -2247,13 +2247,13 @@ theorem sidecarLoop_spec (configured : Bytes → Bool) (state : Bytes → SideSt
       cases hs : state ae with
       | absent =>
         rw [hs] at h
-        rcases sidecarLoop_spec configured state etagFails rest ce0 ce opened h with r | ⟨c, a, b, m, d, e⟩
+        rcases sidecarLoop_spec drop configured state etagFails rest ce0 ce opened h with r | ⟨c, a, b, m, d, e⟩
         · exact Or.inl r
         · exact Or.inr ⟨c, a, b, List.mem_cons_of_mem _ m, d, e⟩
       | openRefused =>
         rw [hs] at h
         simp only [Bool.false_eq_true, if_false] at h
-        rcases sidecarLoop_spec configured state etagFails rest ce0 ce opened h with r | ⟨c, a, b, m, d, e⟩
+        rcases sidecarLoop_spec drop configured state etagFails rest ce0 ce opened h with r | ⟨c, a, b, m, d, e⟩
         · exact Or.inl r
         · exact Or.inr ⟨c, a, b, List.mem_cons_of_mem _ m, d, e⟩
       | openFatal => rw [hs] at h; simp at h
@@ -2264,8 +2264,36 @@ theorem sidecarLoop_spec (configured : Bytes → Bool) (state : Bytes → SideSt
         · simp only [he, Bool.false_eq_true, if_false, Sum.inl.injEq, Prod.mk.injEq] at h
           exact Or.inr ⟨ae, h.2.symm, h.1.symm, List.mem_cons_self, hc, hs⟩
     · simp only [hc, Bool.not_false, if_true] at h
-      rcases sidecarLoop_spec configured state etagFails rest ce0 ce opened h with r | ⟨c, a, b, m, d, e⟩
+      rcases sidecarLoop_spec drop configured state etagFails rest ce0 ce opened h with r | ⟨c, a, b, m, d, e⟩
       · exact Or.inl r
       · exact Or.inr ⟨c, a, b, List.mem_cons_of_mem _ m, d, e⟩
+
+/-- (code as it is) whatever error the loop ends with, no Content-Encoding is left in the header map -/
+theorem sidecarLoop_error (configured : Bytes → Bool) (state : Bytes → SideState) (etagFails : Bool) :
+    ∀ (accepted : List Bytes) (status : Nat) (ce : Option Bytes),
+      sidecarLoop false true configured state etagFails accepted none = .inr (status, ce) → ce = none
+  | [], _, _, h => by simp [sidecarLoop] at h
+  | ae :: rest, status, ce, h => by
+    unfold sidecarLoop at h
+    by_cases hc : configured ae = true
+    · simp only [hc, Bool.not_true, Bool.false_eq_true, if_false] at h
+      cases hs : state ae with
+      | absent => rw [hs] at h; exact sidecarLoop_error configured state etagFails rest status ce h
+      | openRefused =>
+        rw [hs] at h
+        simp only [Bool.false_eq_true, if_false] at h
+        exact sidecarLoop_error configured state etagFails rest status ce h
+      | openFatal =>
+        rw [hs] at h
+        simp only [Bool.false_eq_true, if_false, Sum.inr.injEq, Prod.mk.injEq] at h
+        exact h.2.symm
+      | ok =>
+        rw [hs] at h
+        by_cases he : etagFails = true
+        · simp only [he, if_true, Sum.inr.injEq, Prod.mk.injEq] at h
+          exact h.2.symm
+        · simp [he] at h
+    · simp only [hc, Bool.not_false, if_true] at h
+      exact sidecarLoop_error configured state etagFails rest status ce h
 
 end CaddyModel.C15
